@@ -278,4 +278,65 @@ v("21f-semaphore-per-iteration", [(P, "            semaphore_acquired = False\n 
 v("21g-map-semaphore-wrong-arg", [(P, "            semaphore, actual_end_callback=end_callback\n", "            self._enough_room, actual_end_callback=end_callback\n")], {"C05": "viol"})
 v("P9-drop-semaphore-release-in-handler", [(P, "                coroutine.close()\n                if semaphore_acquired:\n                    semaphore.release()\n                return", "                coroutine.close()\n                return")], {"C05": "ok", "C02": "ok"})
 
+# ---------------------------------------------------------------- C06 / C07
+v("22-cancel-fused-loop", [(P, """        tasks = [self._get_running_task(task_id) for task_id in task_ids]
+        kw = self._get_cancel_kw(msg)
+        for task in tasks:
+            task.cancel(**kw)
+""", """        kw = self._get_cancel_kw(msg)
+        for task_id in task_ids:
+            self._get_running_task(task_id).cancel(**kw)
+""")], {"C06": "R06.1"})
+v("23-lookup-exceptions-swapped", [(P, """            if self._tasks_cancelled.get(task_id):
+                raise AlreadyCancelled(self._task_name(task_id)) from None
+            if self._tasks_ended.get(task_id):
+                raise AlreadyEnded(self._task_name(task_id)) from None""", """            if self._tasks_cancelled.get(task_id):
+                raise AlreadyEnded(self._task_name(task_id)) from None
+            if self._tasks_ended.get(task_id):
+                raise AlreadyCancelled(self._task_name(task_id)) from None""")], {"C06": "R06.2"})
+v("23b-cancel-from-cancelled-registry", [(P, "        try:\n            return self._tasks_running[task_id]\n        except KeyError:\n            if self._tasks_cancelled.get(task_id):\n                raise AlreadyCancelled", "        try:\n            return self._tasks_running[task_id]\n        except KeyError:\n            if self._tasks_cancelled.get(task_id):\n                return self._tasks_cancelled[task_id]\n            if self._tasks_cancelled.get(task_id):\n                raise AlreadyCancelled")], {"C06": "R06.2"})
+v("23c-cancel-skips-done-tasks", [(P, "        for task in tasks:\n            task.cancel(**kw)\n", "        for task in tasks:\n            if task.done():\n                continue\n            task.cancel(**kw)\n")], {"C06": "R06.3"})
+v("23d-cancel-dedups-ids", [(P, "        tasks = [self._get_running_task(task_id) for task_id in task_ids]\n", "        tasks = [self._get_running_task(task_id) for task_id in task_ids if task_id >= 0]\n")], {"C06": "R06.3"})
+v("23e-cancel-in-flush", [(P, "        for task_id in finished:\n            self._tasks_ended.pop(task_id, None)\n", "        for task in self._tasks_running.values():\n            task.cancel()\n        for task_id in finished:\n            self._tasks_ended.pop(task_id, None)\n")], {"C06": "R06.3"})
+v("23f-warn-after-cancel-raises", [(P, "        for task in tasks:\n            task.cancel(**kw)\n", "        for task in tasks:\n            task.cancel(**kw)\n            if task.done():\n                raise AlreadyEnded(str(task))\n")], {"C06": "R06.1"})
+v("P4-cancel-explicit-loop", [(P, "        tasks = [self._get_running_task(task_id) for task_id in task_ids]\n", "        tasks = []\n        for task_id in task_ids:\n            tasks.append(self._get_running_task(task_id))\n")], {"C06": "ok"})
+v("P7-lookup-ended-before-cancelled", [(P, """            if self._tasks_cancelled.get(task_id):
+                raise AlreadyCancelled(self._task_name(task_id)) from None
+            if self._tasks_ended.get(task_id):
+                raise AlreadyEnded(self._task_name(task_id)) from None""", """            if self._tasks_ended.get(task_id):
+                raise AlreadyEnded(self._task_name(task_id)) from None
+            if task_id in self._tasks_cancelled:
+                raise AlreadyCancelled(self._task_name(task_id)) from None""")], {"C06": "ok"})
+v("25-keyerror-break", [(P, "                self._tasks_running[group_reg.pop()].cancel(**cancel_kw)\n            except KeyError:\n                continue", "                self._tasks_running[group_reg.pop()].cancel(**cancel_kw)\n            except KeyError:\n                break")], {"C07": "R07.2"})
+v("26-members-before-spawners", [(P, """        self._cancel_group_meta_tasks(group_name)
+        while group_reg:
+            try:
+                self._tasks_running[group_reg.pop()].cancel(**cancel_kw)
+            except KeyError:
+                continue
+""", """        while group_reg:
+            try:
+                self._tasks_running[group_reg.pop()].cancel(**cancel_kw)
+            except KeyError:
+                continue
+        self._cancel_group_meta_tasks(group_name)
+""")], {"C07": "R07.2"})
+v("27-cancel_all-keeps-groups", [(P, "        while self._task_groups:\n            group_name, group_reg = self._task_groups.popitem()\n            self._cancel_and_remove_all_from_group(group_name, group_reg, **kw)", "        for group_name, group_reg in dict(self._task_groups).items():\n            self._cancel_and_remove_all_from_group(group_name, group_reg, **kw)")], {"C07": "R07.1"})
+v("27b-cancel_group-cancels-before-validation", [(P, """        try:
+            group_reg = self._task_groups.pop(group_name)
+        except KeyError:
+            raise TaskGroupNotFound(group_name) from None
+        kw = self._get_cancel_kw(msg)""", """        self._cancel_group_meta_tasks(group_name)
+        try:
+            group_reg = self._task_groups.pop(group_name)
+        except KeyError:
+            raise TaskGroupNotFound(group_name) from None
+        kw = self._get_cancel_kw(msg)""")], {"C07": "R07.1"})
+v("27c-cancel_group-keeps-group", [(P, "            group_reg = self._task_groups.pop(group_name)\n        except KeyError:\n            raise TaskGroupNotFound", "            group_reg = self._task_groups[group_name]\n        except KeyError:\n            raise TaskGroupNotFound")], {"C07": "viol"})
+v("27d-meta-tasks-not-remembered", [(P, "        self._meta_tasks_cancelled.update(meta_tasks)\n", "")], {"C07": "R07.2"})
+v("27e-consumer-continue-after-cancel", [(P, "                coroutine.close()\n                if semaphore_acquired:\n                    semaphore.release()\n                return", "                coroutine.close()\n                if semaphore_acquired:\n                    semaphore.release()\n                continue")], {"C07": "R07.3", "C05": "viol"})
+v("27f-only-first-meta-task-cancelled", [(P, "        for meta_task in meta_tasks:\n            meta_task.cancel()\n", "        for meta_task in meta_tasks:\n            meta_task.cancel()\n            break\n")], {"C07": "R07.2"})
+v("27g-flush-forgets-groups", [(P, "        for task_id in finished:\n            self._tasks_ended.pop(task_id, None)\n", "        self._task_groups.clear()\n        for task_id in finished:\n            self._tasks_ended.pop(task_id, None)\n")], {"C07": "R07.6"})
+v("P11-cancel_all-copy-then-clear", [(P, "        while self._task_groups:\n            group_name, group_reg = self._task_groups.popitem()\n            self._cancel_and_remove_all_from_group(group_name, group_reg, **kw)", "        for group_name, group_reg in list(self._task_groups.items()):\n            self._cancel_and_remove_all_from_group(group_name, group_reg, **kw)\n        self._task_groups.clear()")], {"C07": "ok"})
+
 VARIANTS = V
